@@ -324,17 +324,23 @@ func H_C07_sparse_setLength() {
 			want = w.idx[i] + 1
 		}
 	}
+	propAtBoundary := false // a property element (configurable or not) sits exactly at index newLen
 	for i := 0; i < w.m; i++ {
-		b := w.idx[i] == newLen && w.elems[i].kind == vC07Prop && !w.elems[i].conf
+		b := w.idx[i] == newLen && w.elems[i].kind == vC07Prop
 		if b {
-			atBoundary = true
+			propAtBoundary = true
+			atBoundary = !w.elems[i].conf
 		}
 	}
 	if newLen >= w.len0 {
 		want = newLen
 		atBoundary = false
+		propAtBoundary = false
 	}
 	known := atBoundary && want == newLen+1 // only the boundary element blocks
+	// same defect (`item.idx <= l` ends the scan one element early): the boundary property is deleted without
+	// being un-counted, unless a higher non-configurable element stopped the truncation above it
+	knownCount := propAtBoundary && (want == newLen || want == newLen+1)
 	wantOK := want == newLen
 	vAssertK("sparse.setLength:length==ArraySetLength", a.length == want, known, "F-C07-sparse-setlength-boundary")
 	vAssertK("sparse.setLength:result==ArraySetLength", ret == wantOK || out.panicked, known, "F-C07-sparse-setlength-boundary")
@@ -357,5 +363,5 @@ func H_C07_sparse_setLength() {
 	}
 	vAssert("sparse.setLength:survivors-unchanged", same)
 	vAssert("sparse.setLength:well-formed", vC07SparseWellFormed(a))
-	vAssertK("sparse.setLength:propValueCount-consistent", a.propValueCount == vC07SparseProps(a), known, "F-C07-sparse-setlength-boundary")
+	vAssertK("sparse.setLength:propValueCount-consistent", a.propValueCount == vC07SparseProps(a), knownCount, "F-C07-sparse-setlength-boundary")
 }
